@@ -86,7 +86,14 @@ def resolve_target(target):
 
 
 def default_call(contract, inputs):
+    import inspect
+
     mod, fn = resolve_target(contract.target)
+    try:
+        names = set(inspect.signature(fn).parameters)
+        inputs = {k: v for k, v in inputs.items() if k in names}  # ghost parameters are not passed
+    except (TypeError, ValueError):
+        pass
     return fn(**inputs)
 
 
